@@ -246,6 +246,9 @@ func (r *stateResolver) resolveAuthBlock(events []PDU, userIDForSender spec.User
 	// (SPEC: This ensures that we always pick a state event for this type and state key.
 	//  Note that if all the events fail auth checks we will still pick the "oldest" event.)
 	result := block[0].event
+	// Remember what the auth events hold for this key (an auth event supplied by the caller
+	// whose key is itself conflicted), so that it can be put back afterwards.
+	previous := r.authEvent(result.Type(), *result.StateKey())
 	// Temporarily add the candidate event to the auth events.
 	r.addAuthEvent(result)
 	for i := 1; i < len(block); i++ {
@@ -266,7 +269,35 @@ func (r *stateResolver) resolveAuthBlock(events []PDU, userIDForSender spec.User
 	// We'll add it back later when all events of the same type have been resolved.
 	// (SPEC: This is done to avoid the result of state resolution depending on the iteration order)
 	r.removeAuthEvent(result.Type(), *result.StateKey())
+	if previous != nil {
+		// Without this the other blocks of the same type would see this key or not
+		// depending on the order in which the blocks are resolved (a Go map order).
+		r.addAuthEvent(previous)
+	}
 	return result
+}
+
+// authEvent returns the auth event currently held for the given type and state key, if any.
+func (r *stateResolver) authEvent(eventType, stateKey string) PDU {
+	switch eventType {
+	case spec.MRoomCreate:
+		if stateKey == "" {
+			return r.resolvedCreate
+		}
+	case spec.MRoomPowerLevels:
+		if stateKey == "" {
+			return r.resolvedPowerLevels
+		}
+	case spec.MRoomJoinRules:
+		if stateKey == "" {
+			return r.resolvedJoinRules
+		}
+	case spec.MRoomMember:
+		return r.resolvedMembers[spec.SenderID(stateKey)]
+	case spec.MRoomThirdPartyInvite:
+		return r.resolvedThirdPartyInvites[stateKey]
+	}
+	return nil
 }
 
 // resolveNormalBlock resolves a block of normal state events with the same state key to a single event.
